@@ -60,6 +60,11 @@ impl InstructionGenerator {
         for (case_block_index, case_block) in case_blocks.into_iter().enumerate() {
             // mark the beginning of this case block
             self.label(&labels::case_block(case_block_index), pos);
+            if case_block_index > 0 {
+                // RESUME after a failing CASE expression of this block evaluates it again
+                // (the nearest mark before it would be the one that closes the previous block)
+                self.mark_statement_address();
+            }
             // where to jump out from here if the case block isn't matching
             let next_case_label =
                 labels::next_case_label(case_blocks_len, has_else, case_block_index);
